@@ -1,13 +1,14 @@
 #!/bin/bash
 # evaluate every delivered seed not yet recorded; serial (they patch /repo's working tree)
 cd /verif
-for d in /tmp/seed_C*/[a-z] /tmp/seed2_C*/[a-z] /tmp/seed3_C*/[a-z] /tmp/seed4_C*/[a-z]; do
+for d in /tmp/seed_C*/[a-z] /tmp/seed2_C*/[a-z] /tmp/seed3_C*/[a-z] /tmp/seed4_C*/[a-z] /tmp/seed5_C*/[a-z]; do
   [ -f "$d/patch.diff" ] || continue
   top=$(basename $(dirname $d)); v=$(basename $d)
   case $top in
     seed2_*) prop=${top#seed2_}; id="$prop-2$v";;
     seed3_*) prop=${top#seed3_}; id="$prop-3$v";;
     seed4_*) prop=${top#seed4_}; id="$prop-4$v";;
+    seed5_*) prop=${top#seed5_}; id="$prop-5$v";;
     *) prop=${top#seed_}; id="$prop-$v";;
   esac
   [ -f "seeded/$id/meta.json" ] && grep -q '"checks"' "seeded/$id/meta.json" && continue
